@@ -141,13 +141,15 @@ Section Setters.
   Inductive cop :=
   | OKey (b : bytes) | OValue (b : bytes) | ODomain (b : bytes) | OPath (b : bytes)
   | OMaxAge (n : Z) | OExpire (t : Z) | OHTTPOnly (b : bool) | OSecure (b : bool)
-  | OSameSite (m : sameSite) | OPartitioned (b : bool) | OReset.
+  | OSameSite (m : sameSite) | OPartitioned (b : bool) | OReset
+  | OCopyFrom (src : cookie).   (* c.CopyTo(src): Reset, then every field of src *)
   Definition cstep (c : cookie) (o : cop) : cookie :=
     match o with
     | OKey b => SetKey c b | OValue b => SetValue c b | ODomain b => SetDomain c b | OPath b => SetPath c b
     | OMaxAge n => SetMaxAge c n | OExpire t => SetExpire c t | OHTTPOnly b => SetHTTPOnly c b
     | OSecure b => SetSecure c b | OSameSite m => SetSameSite c m | OPartitioned b => SetPartitioned c b
     | OReset => Reset c
+    | OCopyFrom src => src
     end.
   Definition crun (ops : list cop) : cookie := fold_left cstep ops emptyCookie.
 End Setters.
@@ -315,3 +317,46 @@ Fixpoint np_of_table (t : list (bytes * bytes)) (p : bytes) : bytes :=
   | [] => p
   | (a, b) :: r => if beq a p then b else np_of_table r p
   end.
+
+(* ---- cookie jars of the two header types (header.go) ---- *)
+(* delAllArgsStable on a []argsKV seen as a list of pairs *)
+Fixpoint delAllKV (h : kvs) (key : bytes) : kvs :=
+  match h with
+  | [] => []
+  | (k, v) :: r => if beq key k then delAllKV r key else (k, v) :: delAllKV r key
+  end.
+Fixpoint peekKV (h : kvs) (key : bytes) : option bytes :=
+  match h with
+  | [] => None
+  | (k, v) :: r => if beq k key then Some v else peekKV r key
+  end.
+
+(* RequestHeader on a header whose Cookie lines are already collected: SetCookie / DelCookie / DelAllCookies /
+   Set("Cookie", text).  JRaw carries the pairs whose text "k=v; k2=v2" is given to Set *)
+Definition raw_cookie_text (pairs : kvs) : bytes := appendRequestCookieBytes [] pairs.
+Inductive jop := JSet (k v : bytes) | JDel (k : bytes) | JDelAll | JRaw (pairs : kvs).
+Definition jstep (j : kvs) (o : jop) : kvs :=
+  match o with
+  | JSet k v => jarSetCookie j k v
+  | JDel k => delAllKV j k
+  | JDelAll => []
+  | JRaw pairs => match parseRequestCookies j (initHeaderValueBytes (raw_cookie_text pairs)) with Some c => c | None => j end
+  end.
+Definition jrun (ops : list jop) : kvs := fold_left jstep ops [].
+(* RequestHeader.Cookie(key) *)
+Definition jarCookie (j : kvs) (key : bytes) : option bytes := peekKV j key.
+
+(* ResponseHeader: SetCookie(cookie) / DelCookie / DelClientCookie / DelAllCookies *)
+Definition CookieExpireDelete : Z := 1257894000%Z.     (* time.Date(2009, November, 10, 23, 0, 0, 0, UTC) *)
+Definition respSetCookie (j : kvs) (c : cookie) : kvs :=
+  setArg j (initHeaderValueBytes (ck_key c)) (initHeaderValueBytes (Cookie_ c)).
+Inductive rjop := RJSet (c : cookie) | RJDel (k : bytes) | RJDelClient (k : bytes) | RJDelAll.
+Definition delClientCookie (k : bytes) : cookie := with_expire (SetKey emptyCookie k) CookieExpireDelete.
+Definition rjstep (j : kvs) (o : rjop) : kvs :=
+  match o with
+  | RJSet c => respSetCookie j c
+  | RJDel k => delAllKV j k
+  | RJDelClient k => respSetCookie (delAllKV j k) (delClientCookie k)
+  | RJDelAll => []
+  end.
+Definition rjrun (ops : list rjop) : kvs := fold_left rjstep ops [].
